@@ -26,11 +26,11 @@ def dy(rng, hi=24):
 
 
 # sha256 of lean/FairModel/Generated/FrameSrc.lean as translated from the pinned tree (see c14.PINNED_SRC_SHA256 for the rule)
-PINNED_FRAMESRC_SHA256 = "69da0cca8d8d38ab7ee2ee22e45dec40eb0b15bd7a7bbe0036855f5751956323"
+PINNED_FRAMESRC_SHA256 = "2389e898c428858014f476a7d84c9b72a01cef2fff616e5430b8001905959ea2"
 _SRC_STATE = {}
 
 
-PINNED_FEATURENAMESSRC_SHA256 = "4219d7b993e86bbf90261e36ddca895e886841dc266c659800dc71796435a830"
+PINNED_FEATURENAMESSRC_SHA256 = "0a1c89dbd252b51be39880b53886247aba29460f17ac5c7899ae255925b64c88"
 
 
 def _generated_changed(fname, pinned):
@@ -100,13 +100,14 @@ def column_names(case):
 
 
 def columns_collide(case):
-    """the hypothesis `ColsOK` of C01.multi_column_eq_single fails: two sample parameters share a column (finding F17)"""
+    """two sample parameters would share the column f"{name}_{param}" (or shadow y_true / y_pred) without the uniquify loop of
+    _construct_annotated_metric_function: the input shape of finding F19 (used as a distribution tag only)"""
     cols = column_names(case) + ["y_true", "y_pred"]
     return len(set(cols)) != len(cols)
 
 
 # --------------------------------------------------------------------------- feature-name stream (kind == "names")
-NAME_POOL = ["a", "A", "b", "grp", "Sex", "a b", "sensitive_feature_0", "control_feature_0", "sensitive_feature_1", "y", ""]
+NAME_POOL = ["a", "A", "b", "grp", "y_true", "y_pred", "m_w", "m_w_", "m_c_d", "Sex", "a b", "sensitive_feature_0", "control_feature_0", "sensitive_feature_1", "y", ""]
 
 
 def names_container(spec, n):
@@ -158,6 +159,19 @@ def names_token(spec, n):
     raise KeyError(c)
 
 
+def names_data_columns(case):
+    """first principles: the columns of all_data when the features are added: y_true, y_pred and one column per sample
+    parameter, f"{metric}_{param}" with '_' appended until the name is free"""
+    cols = ["y_true", "y_pred"]
+    for mname, pnames in case.get("params") or []:
+        for pn in pnames:
+            c = f"{mname}_{pn}"
+            while c in cols:
+                c += "_"
+            cols.append(c)
+    return cols
+
+
 def names_oracle(base, spec, n):
     """first principles: the names a container must get, or 'reject'"""
     c, names = spec["c"], spec["names"]
@@ -195,10 +209,12 @@ class CHECK(Check):
                   "the translated create/_apply_functions with Frame.byGroup/overall and every clause is restated for the "
                   "translation. Multi-metric frames (dict of any number of metrics, one shared all_data table, generated column "
                   "names): every column equals the single-metric frame of that function with exactly its own sample params "
-                  "(multi_column_eq_single) under ColsOK = generated column names pairwise distinct; without it the statement is "
-                  "false of the code (multi_crosstalk_witness = finding F17). Accessor result types from the lifted "
-                  "_extract_result. Feature names: pairwise distinct strings whenever construction succeeds, which containers are "
-                  "rejected, defaults never collide (names_*).")
+                  "(multi_column_eq_single), for ANY metric / parameter names: the lifted uniquify loop makes the generated column "
+                  "names pairwise distinct and different from y_true/y_pred (column_name_fresh, multi_columns_ok); under the "
+                  "pre-repair naming rule the statement is false (legacy_crosstalk_witness, legacy_basecolumn_witness = finding "
+                  "F19). Accessor result types from the lifted _extract_result. Feature names: pairwise distinct strings that "
+                  "are never a data column whenever construction succeeds, which containers are rejected, defaults never collide "
+                  "(names_*).")
     design_ref = "DESIGN.md section 4, C01"
     quick_cases = 1400
     thorough_cases = 8000
@@ -214,7 +230,7 @@ class CHECK(Check):
             "are rejected with KeyError by fairlearn - a rejection, not a wrong cell); NaN feature values not generated. "
             "30% of the cases are turned into dicts of 1..4 metrics (names incl. prefixes of each other) with DIFFERENT sample "
             "params per metric, one metric without any, the free-keyword metric kwsum, parameterless metrics with or without an "
-            "entry in sample_params, rarely (4%) colliding column names (KNOWN-FINDING F17); 12% are feature-name cases: "
+            "entry in sample_params, 8% colliding column names (the F19 shapes: 'a'+'b_c' vs 'a_b'+'c'; metric 'y' with parameter 'pred'/'true'); 12% are feature-name cases: "
             "containers Series(name None/str/int), DataFrame (duplicate / int labels), dict (int keys, ragged), list, list of "
             "lists, 1-d/2-d/3-d arrays for sensitive and optional control features, 1..4 rows. "
             "distinct = distinct (features, data, metric specs); non-trivial = >= 2 rows. thorough additionally "
@@ -270,7 +286,7 @@ class CHECK(Check):
 
     def _multi_case(self, rng, base):
         """dict of 1..4 metrics with DIFFERENT sample params per metric (one of them without any), incl. the free-keyword
-        metric kwsum, metric names that are prefixes of each other, and (rarely) names whose columns collide (F17)"""
+        metric kwsum, metric names that are prefixes of each other, and names whose columns would collide (F19 shapes)"""
         n = len(base["y"])
         k = rng.choice([1, 2, 2, 3, 3, 4, 4])
         names = rng.sample(["m0", "m1", "acc", "my metric", "a", "a_b", "a_b_c", "sample", "m0_ids", "None"], k)
@@ -292,13 +308,13 @@ class CHECK(Check):
             j = rng.randrange(k)        # one metric with no sample parameters at all
             specs[j] = {"tag": "count", "w": None, "ids": None, "a": None}
         c = dict(base, bare=False, specs=specs, names=names)
-        if rng.random() < 0.04 and n <= 40:   # colliding column names: "a"+"b_c" vs "a_b"+"c"
+        if rng.random() < 0.08 and n <= 40:   # colliding column names: "a"+"b_c" vs "a_b"+"c"
             c["names"] = ["a", "a_b"] + [x for x in names if x not in ("a", "a_b")][:k - 2] if k >= 2 else ["a"]
             c["specs"] = [{"tag": "kwsum", "w": None, "ids": None, "a": None, "kw": {"b_c": ids[:n]}},
                           {"tag": "kwsum", "w": None, "ids": None, "a": None, "kw": {"c": [str(3 * int(x)) for x in ids[:n]]}}] + specs[2:]
             c["specs"] = c["specs"][:len(c["names"])]
             c["names"] = c["names"][:len(c["specs"])]
-            if rng.random() < 0.4:    # second shape of F17: the column of a parameter is "y_pred" / "y_true" itself
+            if rng.random() < 0.4:    # second shape of F19: the column of a parameter is "y_pred" / "y_true" itself
                 c["names"] = ["y"] + [x for x in c["names"][1:] if x != "y"]
                 c["specs"] = [{"tag": "kwsum", "w": None, "ids": None, "a": None,
                                "kw": {rng.choice(["pred", "true"]): [str(rng.randint(0, 1)) for _ in range(n)]}}] + \
@@ -340,17 +356,22 @@ class CHECK(Check):
         if rng.random() < 0.3:
             # near-duplicates across / within the containers: the same name (must be rejected) or a name that differs only
             # in case / by a trailing blank / from a default name by one character (must be accepted)
-            x = rng.choice(["a", "grp", "Sex", "sensitive_feature_0", "control_feature_0"])
+            x = rng.choice(["a", "grp", "Sex", "sensitive_feature_0", "control_feature_0", "y_pred", "m_w"])
             y = rng.choice([x, x.swapcase(), x + " ", x[:-1], x + "0"])
+            pr = [["m", ["w"]]] if rng.random() < 0.5 else None
             if rng.random() < 0.5:
-                return {"kind": "names", "n": n, "sf": {"c": "series", "names": [x]},
+                return {"kind": "names", "n": n, "params": pr, "sf": {"c": "series", "names": [x]},
                         "cf": {"c": rng.choice(["series", "df", "dict"]), "names": [y]}}
             other = {"c": rng.choice(["list", "ndarray"]), "names": [None]}
             pair = {"c": rng.choice(["df", "dict"]) if x != y else "df", "names": [x, y]}
-            return {"kind": "names", "n": n, "sf": pair if rng.random() < 0.5 else other,
+            return {"kind": "names", "n": n, "params": pr, "sf": pair if rng.random() < 0.5 else other,
                     "cf": other if rng.random() < 0.5 else pair}
-        return {"kind": "names", "n": n, "sf": self._names_spec(rng, n),
-                "cf": self._names_spec(rng, n) if rng.random() < 0.6 else None}
+        c = {"kind": "names", "n": n, "sf": self._names_spec(rng, n),
+             "cf": self._names_spec(rng, n) if rng.random() < 0.6 else None}
+        if rng.random() < 0.5:
+            # sample parameters create data columns m_w, m_c_d, m_w_ ... which feature names must not reuse
+            c["params"] = rng.choice([[["m", ["w"]]], [["m", ["w", "c_d"]]], [["m", ["w"]], ["m_w", [""]]], [["m_c", ["d"]], ["m", ["c_d"]]]])
+        return c
 
     def _generate_base(self, rng, tier):
         while True:
@@ -485,9 +506,13 @@ class CHECK(Check):
         kw = {}
         if case["cf"] is not None:
             kw["control_features"] = names_container(case["cf"], n)
+        metrics, sp = count, None
+        if case.get("params"):
+            metrics = {mname: kw_sum for mname, _ in case["params"]}
+            sp = {mname: {pn: [1.0] * n for pn in pnames} for mname, pnames in case["params"]}
         try:
-            mf = MetricFrame(metrics=count, y_true=[0] * n, y_pred=[1] * n,
-                             sensitive_features=names_container(case["sf"], n), **kw)
+            mf = MetricFrame(metrics=metrics, y_true=[0] * n, y_pred=[1] * n,
+                             sensitive_features=names_container(case["sf"], n), sample_params=sp, **kw)
         except ValueError:
             return {"names": "ValueError"}
         return {"names": "ok", "sensitive_levels": list(mf.sensitive_levels),
@@ -521,7 +546,7 @@ class CHECK(Check):
 
     def lines(self, case, impl_out):
         if case.get("kind") == "names":
-            return [f"fn.names {names_token(case['sf'], case['n'])} "
+            return [f"fn.names {proto.strs(names_data_columns(case))} {names_token(case['sf'], case['n'])} "
                     f"{'absent' if case['cf'] is None else names_token(case['cf'], case['n'])}"]
         n = len(case["y"])
         ys, ps = proto.lst([F(v) for v in case["y"]]), proto.lst([F(v) for v in case["pred"]])
@@ -560,17 +585,19 @@ class CHECK(Check):
         return by, ov
 
     def judge_names(self, case, o, mo):
-        if "crash" in o:
-            return [Problem("correspondence", f"MetricFrame raised something other than ValueError: {o}", "C01.names_error_kind")]
         probs = []
         n = case["n"]
+        if "crash" in o:
+            probs.append(Problem("correspondence", f"MetricFrame raised something other than ValueError: {o}", "C01.names_error_kind"))
+            o = {"names": "ValueError"}
         want_s = names_oracle("sensitive_feature_", case["sf"], n)
         want_c = None if case["cf"] is None else names_oracle("control_feature_", case["cf"], n)
         if want_s == "reject" or want_c == "reject":
             want = "reject"
         else:
             allnames = want_s + (want_c or [])
-            want = "reject" if len(set(allnames)) != len(allnames) else (want_s, want_c)
+            reserved = set(names_data_columns(case))     # a feature must not be called like a data column (F19)
+            want = "reject" if (len(set(allnames)) != len(allnames) or reserved & set(allnames)) else (want_s, want_c)
         if want == "reject":
             if o["names"] != "ValueError":
                 probs.append(Problem("property", f"feature containers must be rejected (non-string / duplicate names, bad shape) "
@@ -663,8 +690,8 @@ class CHECK(Check):
     def judge_multi(self, case, o, line, oracle_failed):
         """the dict of metrics evaluated at once by Model/FrameMulti.lean (shared all_data table, generated column names,
         generated AnnotatedMetricFunction.__call__ / apply_to_dataframe / create): every column must equal the single-metric
-        oracle of that function with exactly its own sample params (C01.multi_column_eq_single) unless two column names
-        collide (then the model mirrors the code's shadowing and the oracle decides: finding F17)."""
+        oracle of that function with exactly its own sample params (C01.multi_column_eq_single), whatever the metric and
+        parameter names are (colliding f"{name}_{param}" names are made unique by the constructor: repair of F19)."""
         probs = []
         t = line.split(" ")
         names = self._names(case)
@@ -682,7 +709,6 @@ class CHECK(Check):
         okeys = [tuple(k) for k in mc.parse_keys(t[1])]
         if len(case["cf"]) == 0:
             okeys = [()]
-        collide = columns_collide(case)
         for j, (nm, spec) in enumerate(zip(names, case["specs"])):
             if proto.p_s(t[2 + 3 * j]) != nm:
                 probs.append(Problem("harness", f"fm.eval column order: {t[2 + 3 * j]} for {nm}"))
@@ -691,14 +717,14 @@ class CHECK(Check):
             mby = dict(zip(bkeys, cells(t[3 + 3 * j])))
             mov = dict(zip(okeys, cells(t[4 + 3 * j])))
             by, ov = self.oracle(case, spec)
-            if (mby != by or mov != ov) and not collide:
+            if mby != by or mov != ov:
                 msg = f"{nm}: multi-metric model {dict(list(mby.items())[:4])} / {mov} vs oracle {dict(list(by.items())[:4])} / {ov}"
                 if framesrc_changed():
                     probs.append(Problem("correspondence", "the translated source departs from the first-principles oracle "
                                          "(MetricFrame sources changed): " + msg, "C01.generated-source-vs-oracle"))
                 else:
                     probs.append(Problem("harness", msg))
-            if not oracle_failed or collide:
+            if not oracle_failed:
                 got = o["metrics"][nm]
                 for label, tab, mt in (("by_group", got["by_group"], mby), ("overall", got["overall"], mov)):
                     if [tuple(k) for k, _ in tab] != list(mt.keys()) or any(not mc.same(v, mt[tuple(k)]) for k, v in tab):
@@ -711,12 +737,6 @@ class CHECK(Check):
             return None
         """F9: a 1-row dataset whose features come as a numpy array is rejected (np.squeeze drops the only axis).
         Exactly that shape: one row, an ndarray feature container, the constructor raising ValueError."""
-        if problem.kind == "property" and problem.relation in ("C01.byGroup_cell", "C01.overall_eq", "C01.byGroup_empty") \
-                and columns_collide(case):
-            # F17: two sample parameters of a dict of metrics share the all_data column f"{name}_{param}"; exactly that shape
-            for e in entries:
-                if e["id"] == "F17":
-                    return e
         if problem.relation == "C01.accepts" and len(case["y"]) == 1 and "ValueError" in problem.msg \
                 and "ndarray" in (case["sf_container"], case["cf_container"]):
             for e in entries:
@@ -727,7 +747,10 @@ class CHECK(Check):
     def signature(self, case, o):
         if case.get("kind") == "names":
             tags = ["names", "names:sf=" + case["sf"]["c"], "names:cf=" + (case["cf"]["c"] if case["cf"] else "absent"),
-                    "names:" + str(o.get("names"))]
+                    "names:" + str(o.get("names", "crash")), "names:params" if case.get("params") else "names:no_params"]
+            allf = [x for sp_ in (case["sf"], case["cf"]) if sp_ for x in sp_["names"] if isinstance(x, str)]
+            if set(allf) & set(names_data_columns(case)):
+                tags.append("names:feature_named_like_data_column")
             return ("names", json.dumps(case, sort_keys=True)), True, tags
         n = len(case["y"])
         ncf, nsf = len(case["cf"]), len(case["sf"])
@@ -763,7 +786,7 @@ class CHECK(Check):
             if len({tuple(pn for pn, v in spec_params(s) if v is not None) for s in case["specs"]}) > 1:
                 tags.append("multi:different_params_per_metric")
         if columns_collide(case):
-            tags.append("multi:column_names_collide(F17)")
+            tags.append("multi:column_names_collide(F19 shape)")
         if "crash" in o:
             tags.append("crash=" + str(o.get("crash")))
         key = (tuple(map(tuple, cols)), tuple(case["y"]), tuple(case["pred"]),
